@@ -80,12 +80,12 @@ for cls, qn in (('Socket', 'socket.Socket.poll'), ('AsyncSocket', 'async_socket.
 FLAGS_SAME = ('self.closing == old(self.closing) and self.closed == old(self.closed) and '
               'self.connected == old(self.connected) and self.upgrading == old(self.upgrading) '
               'and self.upgraded == old(self.upgraded)')
-QUIET = ('events == old(events) and spawned == old(spawned) and '
+QUIET = ('events == old(events) and hresults == old(hresults) and spawned == old(spawned) and '
          'self.queue.accepted == old(self.queue.accepted) and ' + FLAGS_SAME)
 # object-granular frame: this socket and ITS queue only ("never another session", C03/C16)
 SOCK_MOD = ['self.closing', 'self.closed', 'self.queue.items', 'self.queue.unf',
             'self.queue.taken', 'self.queue.accepted', 'self.queue.put_none',
-            'self.queue.taken_none', 'ghost.events', 'ghost.now', 'ghost.spawned']
+            'self.queue.taken_none', 'ghost.events', 'ghost.hresults', 'ghost.now', 'ghost.spawned']
 
 # ------------------------------------------------------------------------- check_ping_timeout
 for cls, mod in (('Socket', 'socket'), ('AsyncSocket', 'async_socket')):
@@ -98,7 +98,7 @@ for cls, mod in (('Socket', 'socket'), ('AsyncSocket', 'async_socket')):
              'old(self.queue.unf) and self.queue.taken == old(self.queue.taken)')])
     c.ensures('timeout-iff-deadline-passed', 'result == (not old(ping_expired(self, now)))',
               props=['C07'])
-    c.ensures('alive-unchanged', 'implies(result, ' + FLAGS_SAME + ' and events == old(events) '
+    c.ensures('alive-unchanged', 'implies(result, ' + FLAGS_SAME + ' and events == old(events) and hresults == old(hresults) '
               'and self.queue.items == old(self.queue.items) and '
               'self.queue.accepted == old(self.queue.accepted) and now == old(now))')
     c.ensures('dead-closing', 'implies(not result, self.closing)')
@@ -107,7 +107,7 @@ for cls, mod in (('Socket', 'socket'), ('AsyncSocket', 'async_socket')):
               "one_disconnect(events, old(events), self.server.handlers['disconnect'], self.sid, "
               "'ping timeout')))", props=['C05', 'C07'])
     c.ensures('already-closing-silent', 'implies(old(self.closing), ' + FLAGS_SAME +
-              ' and events == old(events))')
+              ' and events == old(events) and hresults == old(hresults))')
     c.ensures('events-only-grow', 'grows(events, old(events))')
     c.ensures('dead-no-message-enqueued',
               'appended_at_most_close(self.queue.accepted, old(self.queue.accepted), None)')
@@ -137,9 +137,9 @@ for cls, mod in (('Socket', 'socket'), ('AsyncSocket', 'async_socket')):
     c.ensures('enqueued-once', 'implies(not old(ping_expired(self, now)), '
               'self.queue.accepted == old(self.queue.accepted) + [pkt] and '
               'self.queue.items == old(self.queue.items) + [pkt] and ' + FLAGS_SAME +
-              ' and events == old(events))', props=['C03'])
+              ' and events == old(events) and hresults == old(hresults))', props=['C03'])
     c.ensures('already-closing-silent', 'implies(old(self.closing), ' + FLAGS_SAME +
-              ' and events == old(events))')
+              ' and events == old(events) and hresults == old(hresults))')
     c.ensures('events-only-grow', 'grows(events, old(events))')
     c.ensures('dead-peer-closed-first', 'implies(old(ping_expired(self, now)), self.closing and '
               'appended_at_most_close(self.queue.accepted, old(self.queue.accepted), pkt))',
@@ -164,7 +164,7 @@ for cls, mod in (('Socket', 'socket'), ('AsyncSocket', 'async_socket')):
     c.param('reason', [NONE, STR])
     c.requires(SOCK_WF, 'socket-wf')
     c.ensures('idempotent', 'implies(old(self.closed) or old(self.closing), ' + FLAGS_SAME +
-              ' and events == old(events) and self.queue.items == old(self.queue.items) and '
+              ' and events == old(events) and hresults == old(hresults) and self.queue.items == old(self.queue.items) and '
               'self.queue.accepted == old(self.queue.accepted))', props=['C05'])
     c.ensures('closes', 'implies(not (old(self.closed) or old(self.closing)), '
               'self.closing and self.closed)', props=['C05'])
@@ -174,7 +174,7 @@ for cls, mod in (('Socket', 'socket'), ('AsyncSocket', 'async_socket')):
               "one_disconnect(events, old(events), self.server.handlers['disconnect'], self.sid, "
               "reason or 'server disconnect'))", props=['C05'])
     c.ensures('no-handler-no-event', "implies('disconnect' not in self.server.handlers, "
-              "events == old(events))", props=['C05'])
+              "events == old(events) and hresults == old(hresults))", props=['C05'])
     c.ensures('events-only-grow', 'grows(events, old(events))')
     c.ensures('only-close-packet-enqueued',
               'appended_at_most_close(self.queue.accepted, old(self.queue.accepted), None)')
@@ -203,7 +203,7 @@ for cls, mod in (('Socket', 'socket'), ('AsyncSocket', 'async_socket')):
               'self.queue.accepted[0:len(old(self.queue.accepted))] == old(self.queue.accepted))')
     c.ensures('silent-if-closing', 'implies(old(self.closing) or old(self.closed), '
               'self.last_ping is None and self.queue.accepted == old(self.queue.accepted) and '
-              'events == old(events))')
+              'events == old(events) and hresults == old(hresults))')
     c.modifies('self.last_ping', *SOCK_MOD)
 
 # ------------------------------------------------------------------------------ _trigger_event
@@ -214,9 +214,9 @@ for cls, mod in (('Server', 'server'), ('AsyncServer', 'async_server')):
     c.param('kwargs', Ty('rec', ('run_async', BOOL)))
     c.returns(ANY)
     c.ensures('unregistered-is-noop', 'implies(event not in self.handlers, result is None and '
-              'events == old(events) and spawned == old(spawned))')
+              'events == old(events) and hresults == old(hresults) and spawned == old(spawned))')
     c.ensures('background-spawns-one-task', "implies(event in self.handlers and "
-              "kwargs['run_async'], events == old(events) and "
+              "kwargs['run_async'], events == old(events) and hresults == old(hresults) and "
               "one_task_spawned(spawned, old(spawned)) and "
               "is_handler_task(task_name(spawned[len(old(spawned))])))", props=['C04'])
     c.ensures('sync-invokes-once', "implies(event in self.handlers and not kwargs['run_async'] "
@@ -228,14 +228,24 @@ for cls, mod in (('Server', 'server'), ('AsyncServer', 'async_server')):
               "event == 'disconnect' and handler_accepts(self.handlers[event], 1), "
               "last_event_is(events, old(events), self.handlers[event], 1, args[0], None))",
               props=['C05'])
+    c.ensures('returns-what-the-handler-returned', "implies(event in self.handlers and not "
+              "kwargs['run_async'] and len(hresults) == len(old(hresults)) + 1, "
+              "result == hresults[len(old(hresults))] and "
+              "hresults[0:len(old(hresults))] == old(hresults))", props=['C11', 'C05'])
+    c.ensures('raising-connect-handler-rejects', "implies(event == 'connect' and "
+              "event in self.handlers and not kwargs['run_async'] and "
+              "len(hresults) == len(old(hresults)), result is False)", props=['C11'])
+    c.ensures('at-most-two-results', 'len(hresults) <= len(old(hresults)) + 2 and '
+              'len(hresults) >= len(old(hresults)) and '
+              "implies(event != 'disconnect', len(hresults) <= len(old(hresults)) + 1)")
     c.ensures('sync-bad-signature-no-event', "implies(event in self.handlers and not "
               "kwargs['run_async'] and not handler_accepts(self.handlers[event], 2) and not "
               "(event == 'disconnect' and handler_accepts(self.handlers[event], 1)), "
-              "events == old(events))")
-    c.modifies('ghost.events', 'ghost.spawned', 'ghost.now')
+              "events == old(events) and hresults == old(hresults))")
+    c.modifies('ghost.events', 'ghost.hresults', 'ghost.spawned', 'ghost.now')
 
 # -------------------------------------------------------------------------------------- receive
-QUIET = ('events == old(events) and spawned == old(spawned) and '
+QUIET = ('events == old(events) and hresults == old(hresults) and spawned == old(spawned) and '
          'self.queue.accepted == old(self.queue.accepted) and ' + FLAGS_SAME)
 for cls, mod in (('Socket', 'socket'), ('AsyncSocket', 'async_socket')):
     c = REG.contract('%s.%s.receive' % (mod, cls), props=['C04', 'C05', 'C07', 'C18'])
@@ -247,7 +257,7 @@ for cls, mod in (('Socket', 'socket'), ('AsyncSocket', 'async_socket')):
     c.may_raise('SocketIsClosedError', 'pkt.packet_type == 5 and self.closed',
                 ensures=[('nothing-happens', QUIET)])
     c.ensures('pong-rearms-heartbeat', "implies(pkt.packet_type == 3, "
-              "spawned == old(spawned) + [mk_task('_send_ping', self)] and events == old(events) "
+              "spawned == old(spawned) + [mk_task('_send_ping', self)] and events == old(events) and hresults == old(hresults) "
               "and self.queue.accepted == old(self.queue.accepted) and " + FLAGS_SAME + ")",
               props=['C04', 'C07'])
     c.ensures('message-one-event-sync', "implies(pkt.packet_type == 4 and "
@@ -257,7 +267,7 @@ for cls, mod in (('Socket', 'socket'), ('AsyncSocket', 'async_socket')):
               "pkt.data) and spawned == old(spawned))", props=['C04'])
     c.ensures('message-one-task-async', "implies(pkt.packet_type == 4 and "
               "'message' in self.server.handlers and self.server.async_handlers, "
-              "events == old(events) and one_task_spawned(spawned, old(spawned)) and "
+              "events == old(events) and hresults == old(hresults) and one_task_spawned(spawned, old(spawned)) and "
               "is_handler_task(task_name(spawned[len(old(spawned))])))", props=['C04'])
     c.ensures('message-leaves-session-alone', "implies(pkt.packet_type == 4, " + FLAGS_SAME +
               " and self.queue.accepted == old(self.queue.accepted))", props=['C04', 'C05'])
@@ -268,7 +278,7 @@ for cls, mod in (('Socket', 'socket'), ('AsyncSocket', 'async_socket')):
               "len(old(self.queue.accepted)) + 1 and "
               "self.queue.accepted[len(old(self.queue.accepted))].packet_type == 6 and "
               "self.queue.accepted[0:len(old(self.queue.accepted))] == old(self.queue.accepted) "
-              "and events == old(events))", props=['C04'])
+              "and events == old(events) and hresults == old(hresults))", props=['C04'])
     c.ensures('close-ends-session', "implies(pkt.packet_type == 1 and "
               "not (old(self.closed) or old(self.closing)), self.closing and self.closed and "
               "self.queue.accepted == old(self.queue.accepted) and "
@@ -295,7 +305,7 @@ for cls, mod in (('Socket', 'socket'), ('AsyncSocket', 'async_socket')):
 POST_MOD = SOCK_MOD + ['ghost.reads', 'ghost.received']
 ENV_POST = ("'wsgi.input' in environ and ('CONTENT_LENGTH' not in environ or "
             "(int_ok(environ['CONTENT_LENGTH']) and int(environ['CONTENT_LENGTH']) >= 0))")
-NOTHING_DISPATCHED = ('received == old(received) and events == old(events) and '
+NOTHING_DISPATCHED = ('received == old(received) and events == old(events) and hresults == old(hresults) and '
                       'spawned == old(spawned) and ' + FLAGS_SAME +
                       ' and self.queue.accepted == old(self.queue.accepted)')
 for cls, mod in (('Socket', 'socket'), ('AsyncSocket', 'async_socket')):
@@ -368,7 +378,7 @@ c.ensures('failed-upgrade-harmless', 'implies(old(self.connected) and not self.u
           'self.queue.taken == old(self.queue.taken) and '
           'self.queue.items[0:len(old(self.queue.items))] == old(self.queue.items) and '
           'self.closing == old(self.closing) and self.closed == old(self.closed) and '
-          'events == old(events))', props=['C06', 'C03'])
+          'events == old(events) and hresults == old(hresults))', props=['C06', 'C03'])
 c.ensures('direct-websocket-mode', 'implies(not old(self.connected), self.connected and '
           'self.upgraded)', props=['C06'])
 c.ensures('ends-closed', 'implies(self.upgraded, self.closing)', props=['C05'])
@@ -418,7 +428,7 @@ c.ensures('failed-upgrade-harmless', "implies(old(self.connected) and not self.u
           'self.queue.taken == old(self.queue.taken) and '
           'self.queue.items[0:len(old(self.queue.items))] == old(self.queue.items) and '
           'self.closing == old(self.closing) and self.closed == old(self.closed) and '
-          'events == old(events))', props=['C06', 'C03'])
+          'events == old(events) and hresults == old(hresults))', props=['C06', 'C03'])
 c.ensures('direct-websocket-mode', "implies(not old(self.connected) and "
           "self.server._async['websocket'] is not None, self.connected and self.upgraded)",
           props=['C06'])
@@ -467,7 +477,7 @@ c.ensures('poll-returns-what-it-took', 'implies(not ' + UPG + ' and '
           'not (old(self.upgrading) or old(self.upgraded)), '
           'self.queue.taken == old(self.queue.taken) + result and '
           'forall(lambda k: result[k] is not None, 0, len(result)) and ' + FLAGS_SAME +
-          ' and events == old(events))', props=['C03'])
+          ' and events == old(events) and hresults == old(hresults))', props=['C03'])
 c.ensures('flag-reset', 'implies(' + UPG + ', not self.upgrading)', props=['C06'])
 c.ensures('upgrade-only-via-probe', 'implies(' + UPG + ' and old(self.connected) and '
           'self.upgraded, handshake_frames(ws_log, len(old(ws_log))))', props=['C06'])
